@@ -117,6 +117,8 @@ class Stream:
                 I = gen_layered(r, nvars=r.range(3, 5), per_layer=r.range(2, 4), depth_free=True, irrelevance=True, dominance=0)
             elif kind == 3:
                 I = gen_layered(r, nvars=r.range(2, 4), per_layer=2, dom_max=2, dominance=0)
+            elif kind == 2 and not stores:
+                I = gen_chain(r, nvars=r.range(4, 6), per_layer=r.range(3, 5), dom_max=r.range(1, 3))    # merge result is a real state: recycling
             elif stores:
                 I = gen_layered(r, nvars=r.range(5, 7), per_layer=r.range(3, 5), dom_max=r.range(2, 3), dominance=r.choice([0, 0, 1, 2]),
                                 rub=r.choice([3, 3, 2, 0]), dead=r.chance(1, 3))
@@ -433,7 +435,7 @@ def protocol_failures(I, meta, fi):
     ev = (fi.get("LOG") or "").split(" ; ")
     k0 = meta["root"][0]
     nv_count = 0; cur_var = None; cur_layer = None; dom_in_layer = 0; layer_idx = -1
-    last_T = None; last_dom = None; last_merge = None
+    last_T = None; last_dom = None; last_merge = None; merged_here = set()
     costs = {}
     width = meta["w"]; ct = meta["ct"]; flv = meta["flv"]
     per_layer = []
@@ -447,11 +449,11 @@ def protocol_failures(I, meta, fi):
                 fails.append(("C12", "next_variable called with depth %d, expected %d" % (depth, k0 + nv_count)))
             nv_count += 1; layer_idx += 1; dom_in_layer = 0
             m = re.search(r"\{(.*)\}", e); cur_layer = set(m.group(1).split()) if m else set()
-            cur_var = t[-1]; last_dom = None
+            cur_var = t[-1]; last_dom = None; merged_here = set()
         elif t[0] == "DOM":
             dom_in_layer += 1
             if t[1] != cur_var: fails.append(("C12", "domain enumerated for variable %s, next_variable selected %s" % (t[1], cur_var)))
-            if flv != 2 and t[2] not in cur_layer and "," not in t[2]:
+            if flv != 2 and t[2] not in cur_layer and t[2] not in merged_here:
                 fails.append(("C12", "domain enumerated for state %s which is not in the current layer %s" % (t[2], sorted(cur_layer))))
             last_dom = (t[1], t[2])
         elif t[0] == "T":
@@ -467,7 +469,7 @@ def protocol_failures(I, meta, fi):
             args = e[len("MERGE "):].split(" -> ")[0].split()
             res = e.split(" -> ")[1]
             if len(args) < 2: fails.append(("C12", "merge called on fewer than two states"))
-            last_merge = (set(args), res)
+            last_merge = (set(args), res); merged_here.add(res)
         elif t[0] == "RELAX":
             src, dst, merged, d, cost = t[1], t[2], t[3], t[4], t[5]
             if last_merge is None or merged != last_merge[1]:
